@@ -215,7 +215,9 @@ class C07(Check):
     # ------------------------------------------------------------------ run
     def run(self, case, out):
         S = self.S
-        path = os.path.join(self.workdir, 'maskbits_%08x.par' % case['layout'])
+        # always the same path, rewritten for every case: a definition file that changes on disk between two loads in
+        # one process must be re-read (no memo keyed by file name may survive)
+        path = os.path.join(self.workdir, 'sdssMaskbits.par')
         with open(path, 'w') as f:
             f.write(self.render(case))
         try:
